@@ -259,6 +259,13 @@ def enc_value(v):
     return None
 
 
+def truncated(v):
+    """vlib.runprog.canon cuts values nested deeper than 6 levels / longer than 200 items"""
+    if v[0] in ("deep", "..."):
+        return True
+    return v[0] == "list" and any(truncated(x) for x in v[1])
+
+
 def enc_input(s):
     import ast
     v = ast.literal_eval(s)
@@ -474,7 +481,7 @@ def run(env):
     res = hard_pmap(impl_run, items, soft=env.budget(3, 4), hard=env.budget(9, 12), procs=min(V.NPROC, 10))
     cases, meta = [], []
     skipped = {"timeout": 0, "harness-exc": 0, "slow": 0, "long-output": 0, "value-outside-int/list/function": 0,
-               "python-resource-limit": 0}
+               "python-resource-limit": 0, "value-too-deep-to-observe": 0}
     for it, (st, r) in zip(items, res):
         if st == "timeout":
             skipped["timeout"] += 1
@@ -492,6 +499,9 @@ def run(env):
             continue
         if len(out) > 1200 or len(str(stack)) > 2500:
             skipped["long-output"] += 1
+            continue
+        if any(truncated(v) for v in stack):
+            skipped["value-too-deep-to-observe"] += 1
             continue
         enc = [enc_value(v) for v in stack]
         if any(e is None for e in enc):
